@@ -483,6 +483,8 @@ class WriterThread(threading.Thread):
         self.queue = queue.SimpleQueue()
         self.write_indexes = [i for i in INDEXES.values() if i.enabled]
         self.processing = False
+        # ids of events that are queued but not written yet
+        self.pending = set()
 
     def run(self):
         env = self.env
@@ -529,6 +531,8 @@ class WriterThread(threading.Thread):
             except Exception:
                 log.exception("writer")
             finally:
+                if operation == "add":
+                    self.pending.discard(args[0].id)
                 self.processing = False
 
     def _delete_event(self, txn, event: Event, log):
@@ -667,11 +671,41 @@ class LMDBStorage(BaseStorage):
             raise StorageError("invalid: Bad JSON")
 
         await self.validate_event(event, Config)
+        # the event is acknowledged before the writer thread stores it,
+        # so make sure now that it can be stored
+        self.check_storable(event)
 
         if not event.is_ephemeral:
+            if event.id in self.writer_thread.pending:
+                return event, False
+            with self.db.begin(buffers=True) as txn:
+                if txn.get(b"\x00" + event.id_bytes) is not None:
+                    # duplicate: nothing to do, and nobody needs to be notified again
+                    return event, False
+            self.writer_thread.pending.add(event.id)
             self.writer_queue.put(("add", [event]))
         await self.post_save(event)
         return event, True
+
+    def check_storable(self, event: Event):
+        """
+        Raise StorageError if the event can't be written to the indexes
+        (numbers that don't fit the key layout, keys longer than lmdb allows, ...)
+        """
+        max_key_size = self.db.max_key_size()
+
+        class KeyChecker:
+            @staticmethod
+            def put(key, value):
+                if not 0 < len(key) <= max_key_size:
+                    raise ValueError("index key is too long")
+
+        try:
+            for index in self.writer_thread.write_indexes:
+                if not isinstance(index, FTSIndex):
+                    index.write(event, KeyChecker)
+        except Exception as e:
+            raise StorageError(f"invalid: event cannot be stored: {e}")
 
     async def post_save(self, event: Event, **kwargs):
         await self.notify_all_connected(event)
